@@ -80,7 +80,11 @@ def _case(draw):
     for k, vals in MODES.items():
         if draw(st.integers(0, 2)) == 0:
             modes[k] = draw(st.sampled_from(vals))
-    return {"table": table, "scan": scan, "prog": prog, "fields": fields, "free": free, "tail": tail,
+    tight = draw(st.sampled_from([False, False, True]))
+    if tight:
+        # every free field's value ends with a punctuation character (part of the value)
+        fields = [[k, v.rstrip() + draw(st.sampled_from([";", ".", ",", ")", "!"]))] for k, v in fields]
+    return {"table": table, "scan": scan, "prog": prog, "fields": fields, "free": free, "tail": tail, "tight": tight,
             "after": draw(st.integers(0, 3)) == 0, "modes": modes,
             "slot": draw(st.integers(0, 4)), "nl": draw(st.booleans())}
 
@@ -91,12 +95,21 @@ def strategy(tier):
 
 def build_comment(case, modes):
     """free text, fields and mode settings interleaved; tail after a stand-alone colon"""
-    items = [f"{k}: {v}" for k, v in case["fields"]]
+    items = [(f"{k}: {v}", "field") for k, v in case["fields"]]
     slot = min(case["slot"], len(items))
-    mitems = [f"{k}: {v}" for k, v in modes.items()]
+    mitems = [(f"{k}: {v}", "mode") for k, v in modes.items()]
     items = items[:slot] + mitems + items[slot:]
     sep = "\n   " if case["nl"] else " "
-    body = sep.join(items)
+    body = ""
+    for i, (it, kind) in enumerate(items):
+        if i == 0:
+            body = it
+        elif case.get("tight") and items[i - 1][1] == "field":
+            # the previous free field's value ends with punctuation (part of the value) and the
+            # next key follows at once, without whitespace
+            body += it
+        else:
+            body += sep + it
     text = case["free"]
     if text and items:
         text += sep
